@@ -30,6 +30,7 @@ pub fn requirements(tier: Tier) -> Vec<(&'static str, u64)> {
         ("must-accept:SmallString", 100_000),
         ("must-accept:Purl", 50_000),
         ("spelling-pairs-compared", 100_000),
+        ("interleaved-unjudged-parses", 100_000),
         ("typed:unsupported-type-confirmed", 100),
         ("typed:maven-missing-namespace-confirmed", 10),
     ];
@@ -109,6 +110,16 @@ fn report(ctx: &mut Ctx, inst: &'static str, s: &str, f: Fail) {
 
 fn one(ctx: &mut Ctx, inst: &'static str, key: &'static str, s: &str) {
     let (judged, f) = judge_dyn(inst, s);
+    if !judged {
+        // not judged here, but still executed: a refused or unspecified input must not leave
+        // anything behind that changes how the next legal spelling on this thread is parsed
+        match inst {
+            "String" => drop(obs::parse::<String>(s)),
+            "SmallString" => drop(obs::parse::<SmallString>(s)),
+            _ => drop(obs::parse::<PackageType>(s)),
+        }
+        ctx.st.count("interleaved-unjudged-parses");
+    }
     if judged {
         ctx.st.evaluations += 1;
         ctx.st.count(key);
@@ -180,6 +191,13 @@ pub fn run(ctx: &mut Ctx) {
                 ctx.st.nontrivial(fnv(s.as_bytes()));
             }
             ctx.st.sample(|| json!({"tuple": t, "spelling": s, "canonical": canon, "freedoms_used": (0..18).filter(|i| sp.used & (1 << i) != 0).map(|i| FREEDOM_NAMES[i]).collect::<Vec<_>>()}));
+            if r.chance(1, 2) {
+                // a damaged sibling first (refused part-way through some component)
+                let kind = *r.pick(spell::FAULT_KINDS);
+                if let Some(bad) = spell::inject(&mut r, &t, &sp, kind) {
+                    all_insts(ctx, &bad);
+                }
+            }
             all_insts(ctx, &s);
             // any two spellings of one tuple: equal PURLs, identical canonical strings
             if let Out::Ok(p) = obs::parse::<String>(&s) {
